@@ -224,9 +224,15 @@ func linetraceMain(args []string) int {
 			textChildren = t.Children
 		}
 	}
+	// "higher-priority signature" is read against the pinned order of the children of text/plain (tree.go:83),
+	// not against whatever order the tree under test has: NDJSON is consulted before CSV and TSV
+	pinnedText := []string{"text/html", "image/svg+xml", "text/xml", "text/x-php", "text/javascript", "text/x-lua", "text/x-perl", "text/x-python",
+		"application/json", "application/x-ndjson", "text/rtf", "application/x-subrip", "text/x-tcl", "text/csv", "text/tab-separated-values",
+		"text/vcard", "text/calendar", "application/warc", "text/vtt"}
+	_ = textChildren
 	idxOf := func(name string) int {
-		for i, c := range textChildren {
-			if c.String() == name {
+		for i, c := range pinnedText {
+			if c == name {
 				return i
 			}
 		}
